@@ -129,3 +129,18 @@ CHECKS["C03"] = dict(
     design_ref="DESIGN.md section 3 C03",
     note="tracemalloc sees Python/NumPy allocations in all threads, not allocations inside C codecs. Peaks depend on how zarr's IO thread interleaves reads, hence the three-measurement rule. Mutations that only remove slack from a still-valid bound are invisible by design.",
 )
+
+CHECKS["C15"] = dict(
+    level="exploration",
+    technique="bounded-exhaustive and property-based differential testing of the blockwise index algebra against an independent reference model; symbolic execution (provenance terms) of generated fusion DAGs through the real optimizer and the real apply_blockwise stage function against recursive evaluation of the unfused description; structural comparison of optimized vs composed unoptimized key functions on real plans",
+    text="Part 1 is exhaustive in the thorough tier within the stated bounds (1 arg <= 4 dims, 2 args <= 4 dims, 3 args <= 2 dims, <= 4 symbols, blocks {1,2,3}, every broadcast / new-axis / contraction assignment, all output blocks; 14.3 M expressions modulo symbol renaming) and sampled beyond them. Part 2 explores generated fusion DAGs (depth <= 3, eight key-function shapes, repeated / None / multi-output predecessors, unequal task counts, all optimizer entry points incl. the legacy one) and real plans; the space of fusion structures is unbounded, so this is exploration, not proof.",
+    design_ref="DESIGN.md section 3 C15 and appendix E",
+    note="Storage is replaced by stand-ins (virtual arrays in part 1, symbolic arrays in part 2). Only fusions the optimizer's own predicates admit are performed. Real plans are compared on key functions only; values are C02's business.",
+)
+CHECKS["C08"] = dict(
+    level="fault_enumeration",
+    technique="fault/straggle-script enumeration and property-based testing of the real async_map_unordered + real tenacity retry wrapper on a virtual-time asyncio loop with a scripted pool (scripts per input and submission; reference model of the retry/backup contract); exhaustive enumeration of small configurations in the thorough tier; end-to-end IO-fault injection on one chunk key of small real computations on the threads executor",
+    text="For each script (n<=40 inputs; per original/backup submission a completion class fast / exactly-simultaneous-with-twin / 3x-100x straggler and k<=retries+2 leading failures) x use_backups x batch_size {None,<n,=n,>n} x retries {0,1,2} x list/iterator x processing order of same-round completions, the run must end normally with exactly one delivery per input, each backed by a submission that succeeded, or raise the scripted task error for an input none of whose submissions can succeed; never hang (virtual-time hang detector), never another exception; <=2 submissions per input, backups only if enabled; attempts per submission = min(k+1, retries+1). Thorough enumerates completely all scripts over a 3x3 alphabet for 1-2 scripted inputs (+10 fillers) under every option combination and for 3 scripted inputs under a reduced option set (2.3M scripts). Tier B: f in 0..4 injected read/write faults on a single-task chunk key: f<=2 => NumPy values and one task-end per planned task; f>=3 => OSError after exactly 3 attempts.",
+    design_ref="DESIGN.md section 3 C08, section 2.5",
+    note="The worker pool and the clock are replaced (module attribute cubed.runtime.asyncio.time, restored). All attempts of one submission happen at its completion instant. Future hashes are creation numbers so set iteration is reproducible. Empty input excluded. Nothing requires a backup to be launched. Remote executors are not covered.",
+)
